@@ -41,6 +41,14 @@ func indentAndWrite(buf *bytes.Buffer, dst []byte, src []byte, prefix, indentStr
 	if err != nil {
 		return nil, err
 	}
+	// trailing space characters at the end of src are preserved and copied
+	// to dst (src ends with the nul terminator added by the caller)
+	end := len(src) - 1
+	start := end
+	for start > 0 && isWhiteSpace[src[start-1]] {
+		start--
+	}
+	dst = append(dst, src[start:end]...)
 	if _, err := buf.Write(dst); err != nil {
 		return nil, err
 	}
